@@ -1,4 +1,4 @@
-SPECIFICATION Spec
+SPECIFICATION FairSpec
 CONSTANTS
   Progs <- MCProgs
   Wrapper <- MCWrapper
@@ -6,4 +6,5 @@ CONSTANTS
   MaxShort <- MCMaxShort
 INVARIANT LevelA
 INVARIANT Replay
+PROPERTY Terminates
 CHECK_DEADLOCK FALSE
